@@ -142,7 +142,7 @@ def run_api(sh, ctx):
 	omp_set_num_threads(sh['threads'])
 	digests = {}
 	# one size from each sorting regime first (deterministically covered), the rest drawn at random
-	sizes = [rng.choice([2, 3, 5, 8, 13, 16]), rng.choice([17, 18, 33, 64]), rng.choice([100, 257, 500])]
+	sizes = [rng.choice([2, 3, 5, 8, 13, 16]), rng.choice([17, 18, 33, 64]), rng.choice([100, 257, 500, 1100])]   # 1100 > default reference chunk size
 	sizes += [rng.choice([1, 2, 3, 5, 8, 13, 16, 17, 18, 33, 64, 100, 257, 500]) for _ in range(max(sh['nworlds'] - 3, 0))]
 	for wi in range(sh['nworlds']):
 		n = sizes[wi]
